@@ -84,6 +84,7 @@ package round
 //@   modifies nothing
 //@   allocates
 //@   ensures !held(h.mtx) && result != nil && result.h != nil
+//@   ensures[C11,C10] hstate(result) == hstate(h.hash) && fresh(result)
 
 //@ func (*Helper).UpdateHashState
 //@   nopanic[C05,C17]
